@@ -15,7 +15,7 @@ else
   git -C /repo worktree remove --force $S >/dev/null 2>&1; rm -rf $S
   git -C /repo worktree add -q --detach $S HEAD || exit 2
   git -C $S apply "$PWD/seeded/$d/patch.diff" || { echo "$d: patch does not apply to HEAD"; git -C /repo worktree remove --force $S; exit 2; }
-  out=$(SNT_REPO=$S VERIF_REPLAY_DIR=/tmp/seeded-replays/$d ./check $prop $tier --no-evidence 2>&1); rc=$?
+  out=$(SNT_REPO=$S VERIF_REPLAY_DIR=/tmp/seeded-replays/$d ./check $prop $tier --no-evidence ${SEEDED_SEED:+--seed $SEEDED_SEED} 2>&1); rc=$?
   git -C /repo worktree remove --force $S
 fi
 echo "$d $prop $tier rc=$rc: $(echo "$out" | grep -E 'kind=' | sed 's/.*kind=//' | cut -c1-90 | sort -u | head -4 | tr '\n' ';')"
